@@ -363,6 +363,53 @@ fn latch_program<T, I: Iterator<Item = sonic_rs::Result<T>>>(ctx: &mut Ctx, api:
     ctx.class("latch:adaptor-programs");
 }
 
+/// Errors that echo a piece of the input (invalid type: string "…", unknown variant / field `…`):
+/// the echoed text is long and multi-byte, so that whatever a formatter does at a byte budget
+/// (cut, elide, wrap) meets the inside of a character. Every such error must still be displayable
+/// and locate itself.
+fn long_echo(ctx: &mut Ctx, filler: usize, prefix: usize, len: usize) {
+    #[derive(serde::Deserialize, Debug)]
+    #[allow(dead_code)]
+    enum Color {
+        Red,
+        Green,
+    }
+    #[derive(serde::Deserialize, Debug)]
+    #[serde(deny_unknown_fields)]
+    #[allow(dead_code)]
+    struct Strict {
+        zzz_known: u8,
+    }
+    let unit = ["é", "哈", "😀", "a", "\u{7ff}\u{800}"][filler % 5];
+    let mut body = "x".repeat(prefix);
+    while body.len() < len {
+        body.push_str(unit);
+    }
+    let lit = format!("\"{}\"", body);
+    let docs: Vec<(&str, String)> = vec![("u32", lit.clone()), ("bool", format!("[{}]", lit)), ("enum", lit.clone()), ("enum-in-map", format!("{{{}:1}}", lit)), ("unknown-field", format!("{{\n{}:1}}", lit)), ("map-key", format!("{{\n \"k\":1,\n{}:2}}", lit))];
+    for (what, doc) in &docs {
+        let e = match *what {
+            "u32" => sonic_rs::from_str::<u32>(doc).err(),
+            "bool" => sonic_rs::from_str::<Vec<bool>>(doc).err(),
+            "enum" => sonic_rs::from_str::<Color>(doc).err(),
+            "enum-in-map" => sonic_rs::from_slice::<Color>(doc.as_bytes()).err(),
+            "unknown-field" => sonic_rs::from_str::<Strict>(doc).err(),
+            _ => sonic_rs::from_str::<std::collections::BTreeMap<u8, u8>>(doc).err(),
+        };
+        match e {
+            Some(e) => {
+                judge(ctx, &format!("long-echo:{}", what), doc.as_bytes(), &e, false);
+                let alt = format!("{:#?} {:>10} {:.5}", e, e, e);
+                if alt.is_empty() {
+                    ctx.fail("message-undisplayable:long-echo", "empty".into());
+                }
+            }
+            None => ctx.fail(&format!("long-echo-accepted:{}", what), format!("{} accepted a string of {} bytes", what, len)),
+        }
+    }
+    ctx.class("error:long-echo");
+}
+
 /// re-render a document over several lines (LF / CRLF / blank lines) without changing tokens
 fn multiline(r: &mut crate::rng::Rng, d: &[u8]) -> Vec<u8> {
     let gaps = mutate::token_gaps(d);
@@ -418,6 +465,22 @@ impl Check for C20 {
             }
             emit(Case::new("mutated", m));
         }
+        // errors echoing long multi-byte text: every length around 4 KiB, some around 1/8/64 KiB
+        {
+            let mut lens: Vec<i64> = (4040..4120).collect();
+            lens.extend([0i64, 1, 100, 1000, 1020, 1021, 1022, 1023, 1024, 1025, 2040, 2047, 2048, 2049, 8170, 8180, 8190, 8191, 8192, 8193, 16384, 65530, 65535, 65536, 65537, 100_003]);
+            let mut idx = 0u64;
+            for len in &lens {
+                for filler in 0..5i64 {
+                    for prefix in 0..4i64 {
+                        idx += 1;
+                        if g.mine(idx) && (g.tier == Tier::Thorough || (idx / 16) % 3 == 0) {
+                            emit(Case::with("long-echo", vec![], &[filler, prefix, *len]));
+                        }
+                    }
+                }
+            }
+        }
         let total = tokens::count(3);
         let mut buf = Vec::new();
         let mut i = g.shard;
@@ -435,6 +498,10 @@ impl Check for C20 {
     fn exec(&self, ctx: &mut Ctx, c: &Case) {
         ctx.nontrivial();
         match c.entry.as_str() {
+            "long-echo" => {
+                long_echo(ctx, c.p(0) as usize, c.p(1) as usize, c.p(2) as usize);
+                ctx.sample("long-echo");
+            }
             "every-prefix-and-subst" => {
                 let d = &c.input;
                 for l in 0..d.len() {
@@ -455,6 +522,6 @@ impl Check for C20 {
         ctx.sample(&c.entry);
     }
     fn required_classes(&self, _b: &str, _t: Tier) -> Vec<&'static str> {
-        vec!["error:observed", "error:beyond-first-line", "error:position-less", "outcome:ok", "latch:stream", "latch:iterators", "latch:adaptor-programs", "mode:every-prefix-and-substitution"]
+        vec!["error:observed", "error:beyond-first-line", "error:position-less", "outcome:ok", "latch:stream", "latch:iterators", "latch:adaptor-programs", "mode:every-prefix-and-substitution", "error:long-echo"]
     }
 }
